@@ -18,7 +18,7 @@ def run(ctx):
     deliv = q.spec_cfg(delivMaxAge=20, pruneInt=10)
     if ctx.quick:
         plan = {"mc": [("fence", c, PROPS, dict(family=("lease", "leasebatch", "operator"), horizon=20, maxep=2, maxins=2))],
-                "gen": [("fence", c, dict(family=("lease", "leasebatch", "operator"), horizon=10, maxep=2, maxins=1, pick="insertion", ttls=(10,), ticks=(10,), delays=(0,)), 4)],
+                "gen": [("fence", c, dict(family=("lease", "leasebatch", "operator", "restart"), horizon=10, maxep=2, maxins=1, pick="insertion", ttls=(10,), ticks=(10,), delays=(0,)), 4)],
                 "drv": [("lease", "lease", 150, 70, {})]}
     else:
         plan = {"mc": [("fence", c, PROPS, dict(family=("lease", "leasebatch", "operator"), horizon=30, maxep=3, maxins=2, timeout=3000)),
